@@ -84,14 +84,18 @@ class Expander:
         return nodes[0] if nodes else None
 
     # ---------------------------------------------------------------- entry
-    def at(self, func: Func, e: ast.AST, env: dict | None = None) -> Term:
+    def value_at(self, func: Func, e: ast.AST, env: dict | None = None) -> Term:
+        """Like ``at`` but a call of a transparent helper at the top is replaced by its value."""
+        return self.at(func, e, env, keep_call=False)
+
+    def at(self, func: Func, e: ast.AST, env: dict | None = None, keep_call: bool = True) -> Term:
         """Term of expression ``e`` evaluated where it stands in ``func``."""
         node = self.node_of(func, e)
         if env is None:
             env = self._comp_env(func, e, node)
         # the expression asked for is never replaced by its callee's value (the
         # caller wants this call); calls nested in it are
-        prev, self._top = self._top, e
+        prev, self._top = self._top, (e if keep_call else None)
         try:
             return self.expr(e, func, node, env, 0)
         finally:
